@@ -72,9 +72,7 @@ class Analyzer:
                 key = "self.%s" % node.attr
                 if key in env and env[key] in (ALIAS, SHARED):
                     return env[key]        # the attribute was bound to a parameter / shared object in this call
-                if self.owned is None or node.attr in self.owned:
-                    return OWN
-                return SHARED
+                return OWN          # documented or not, an attribute of self is the object's own state (see C19.STATE_WRITERS)
             if isinstance(node.value, ast.Name) and node.value.id == "cls":
                 return SHARED
             if base == SHARED:
@@ -139,7 +137,7 @@ class Analyzer:
             if isinstance(tgt.value, ast.Name) and tgt.value.id == "self":
                 env["self.%s" % tgt.attr] = value_origin
                 if self.owned is not None and tgt.attr not in self.owned:
-                    self.sites.append(Site(fname, st.lineno, ast.unparse(st)[:120], SHARED, "attribute-store(self.%s not documented state)" % tgt.attr))
+                    self.sites.append(Site(fname, st.lineno, ast.unparse(st)[:120], OWN, "attribute-store(self.%s, not among the documented state)" % tgt.attr))
                 else:
                     self.sites.append(Site(fname, st.lineno, ast.unparse(st)[:120], OWN, "attribute-store(self)"))
             else:
